@@ -25,9 +25,19 @@ use serde_json::json;
 use std::collections::VecDeque;
 use std::panic::{catch_unwind, AssertUnwindSafe};
 use std::pin::Pin;
+use std::sync::atomic::{AtomicUsize, Ordering::SeqCst};
 use std::sync::{Arc, Mutex};
 use std::task::{Context, Poll};
 use tokio::io::{AsyncRead, AsyncWrite, ReadBuf};
+
+/// one answer of the peer's socket to a `poll_write` / `poll_flush` call (Lean: `ConnW.WEv`)
+#[derive(Clone, Debug, PartialEq)]
+pub enum WEv {
+    /// poll_write takes min(k, remaining) bytes (k = 0: `Ok(0)`, write_all fails with WriteZero); poll_flush is Ok
+    Accept(usize),
+    /// the call fails: the peer is gone
+    Fail,
+}
 
 pub struct Scripted {
     segs: VecDeque<Vec<u8>>,
@@ -35,17 +45,58 @@ pub struct Scripted {
     /// index (0-based) of the write call that fails: the client is gone / has stopped reading
     fail_write_at: Option<usize>,
     writes: usize,
+    /// answers to successive poll_write / poll_flush calls; exhausted = everything is accepted
+    script: VecDeque<WEv>,
+    /// the data-returning read call (0-based) that fails instead
+    read_err_at: Option<usize>,
+    /// read calls that returned data
+    reads: Arc<AtomicUsize>,
+    /// every `pend_every`-th poll returns Pending once (waking itself) before it answers; 0 = never
+    pend_every: usize,
+    polls: usize,
+    pended: bool,
+}
+
+impl Scripted {
+    fn plain(segs: &[Vec<u8>], written: Arc<Mutex<Vec<u8>>>, fail_write_at: Option<usize>) -> Scripted {
+        Scripted { segs: segs.iter().cloned().collect(), written, fail_write_at, writes: 0, script: VecDeque::new(), read_err_at: None,
+            reads: Arc::new(AtomicUsize::new(0)), pend_every: 0, polls: 0, pended: false }
+    }
+    /// true = this poll answers Pending (the task is woken at once and polls again)
+    fn pend(&mut self, cx: &mut Context<'_>) -> bool {
+        if self.pend_every == 0 {
+            return false;
+        }
+        if self.pended {
+            self.pended = false;
+            return false;
+        }
+        self.polls += 1;
+        if self.polls % self.pend_every == 0 {
+            self.pended = true;
+            cx.waker().wake_by_ref();
+            return true;
+        }
+        false
+    }
 }
 
 impl AsyncRead for Scripted {
-    fn poll_read(mut self: Pin<&mut Self>, _cx: &mut Context<'_>, buf: &mut ReadBuf<'_>) -> Poll<std::io::Result<()>> {
+    fn poll_read(mut self: Pin<&mut Self>, cx: &mut Context<'_>, buf: &mut ReadBuf<'_>) -> Poll<std::io::Result<()>> {
+        if self.pend(cx) {
+            return Poll::Pending;
+        }
         // skip empty segments (a zero-length read would mean EOF)
         while matches!(self.segs.front(), Some(s) if s.is_empty()) {
             self.segs.pop_front();
         }
+        if self.segs.front().is_some() && self.read_err_at == Some(self.reads.load(SeqCst)) {
+            return Poll::Ready(Err(std::io::Error::new(std::io::ErrorKind::ConnectionReset, "connection reset by peer")));
+        }
         if let Some(mut s) = self.segs.pop_front() {
             let n = s.len().min(buf.remaining());
             buf.put_slice(&s[..n]);
+            self.reads.fetch_add(1, SeqCst);
             if n < s.len() {
                 let rest = s.split_off(n);
                 self.segs.push_front(rest);
@@ -56,17 +107,36 @@ impl AsyncRead for Scripted {
 }
 
 impl AsyncWrite for Scripted {
-    fn poll_write(mut self: Pin<&mut Self>, _cx: &mut Context<'_>, buf: &[u8]) -> Poll<std::io::Result<usize>> {
+    fn poll_write(mut self: Pin<&mut Self>, cx: &mut Context<'_>, buf: &[u8]) -> Poll<std::io::Result<usize>> {
+        if self.pend(cx) {
+            return Poll::Pending;
+        }
         let i = self.writes;
         self.writes += 1;
         if self.fail_write_at == Some(i) {
             return Poll::Ready(Err(std::io::Error::new(std::io::ErrorKind::BrokenPipe, "client gone")));
         }
-        self.written.lock().unwrap().extend_from_slice(buf);
-        Poll::Ready(Ok(buf.len()))
+        match self.script.pop_front() {
+            Some(WEv::Fail) => Poll::Ready(Err(std::io::Error::new(std::io::ErrorKind::BrokenPipe, "client gone"))),
+            Some(WEv::Accept(k)) => {
+                let n = k.min(buf.len());
+                self.written.lock().unwrap().extend_from_slice(&buf[..n]);
+                Poll::Ready(Ok(n))
+            }
+            None => {
+                self.written.lock().unwrap().extend_from_slice(buf);
+                Poll::Ready(Ok(buf.len()))
+            }
+        }
     }
-    fn poll_flush(self: Pin<&mut Self>, _cx: &mut Context<'_>) -> Poll<std::io::Result<()>> {
-        Poll::Ready(Ok(()))
+    fn poll_flush(mut self: Pin<&mut Self>, cx: &mut Context<'_>) -> Poll<std::io::Result<()>> {
+        if self.pend(cx) {
+            return Poll::Pending;
+        }
+        match self.script.pop_front() {
+            Some(WEv::Fail) => Poll::Ready(Err(std::io::Error::new(std::io::ErrorKind::BrokenPipe, "client gone"))),
+            _ => Poll::Ready(Ok(())),
+        }
     }
     fn poll_shutdown(self: Pin<&mut Self>, _cx: &mut Context<'_>) -> Poll<std::io::Result<()>> {
         Poll::Ready(Ok(()))
@@ -109,6 +179,8 @@ pub enum End {
 pub struct ConnRun {
     pub written: Vec<u8>,
     pub end: End,
+    /// read calls that returned data (only counted by `run_scripted`)
+    pub reads: usize,
 }
 
 pub struct Runner {
@@ -122,7 +194,7 @@ impl Runner {
     /// one connection on a fresh 2-shard server: the segments, then EOF
     pub fn run(&self, cfg: &Cfg, segs: &[Vec<u8>]) -> ConnRun {
         let written = Arc::new(Mutex::new(Vec::new()));
-        let stream = Scripted { segs: segs.iter().cloned().collect(), written: written.clone(), fail_write_at: None, writes: 0 };
+        let stream = Scripted::plain(segs, written.clone(), None);
         let ccfg = cfg.real();
         let r = catch_unwind(AssertUnwindSafe(|| {
             self.rt.block_on(async move {
@@ -136,7 +208,7 @@ impl Runner {
             Ok(Ok(())) => End::Eof,
         };
         let w = written.lock().unwrap().clone();
-        ConnRun { written: w, end }
+        ConnRun { written: w, end, reads: 0 }
     }
 }
 
@@ -145,7 +217,7 @@ impl Runner {
     /// connections served before it); `fail_write_at` = the write call that fails
     pub fn run_pooled(&self, cfg: &Cfg, segs: &[Vec<u8>], fail_write_at: Option<usize>, pool: Arc<ConnectionPool>) -> ConnRun {
         let written = Arc::new(Mutex::new(Vec::new()));
-        let stream = Scripted { segs: segs.iter().cloned().collect(), written: written.clone(), fail_write_at, writes: 0 };
+        let stream = Scripted::plain(segs, written.clone(), fail_write_at);
         let ccfg = cfg.real();
         let r = catch_unwind(AssertUnwindSafe(|| {
             self.rt.block_on(async move {
@@ -159,7 +231,36 @@ impl Runner {
             Ok(Ok(())) => End::Eof,
         };
         let w = written.lock().unwrap().clone();
-        ConnRun { written: w, end }
+        ConnRun { written: w, end, reads: 0 }
+    }
+}
+
+impl Runner {
+    /// one connection on a fresh 2-shard server with a scripted PEER: the socket answers successive
+    /// poll_write / poll_flush calls as `script` says (partial writes, Ok(0), failures), read call
+    /// `read_err_at` fails, every `pend_every`-th poll is Pending first
+    pub fn run_scripted(&self, cfg: &Cfg, segs: &[Vec<u8>], script: &[WEv], read_err_at: Option<usize>, pend_every: usize) -> ConnRun {
+        let written = Arc::new(Mutex::new(Vec::new()));
+        let reads = Arc::new(AtomicUsize::new(0));
+        let mut stream = Scripted::plain(segs, written.clone(), None);
+        stream.script = script.iter().cloned().collect();
+        stream.read_err_at = read_err_at;
+        stream.reads = reads.clone();
+        stream.pend_every = pend_every;
+        let ccfg = cfg.real();
+        let r = catch_unwind(AssertUnwindSafe(|| {
+            self.rt.block_on(async move {
+                let state = ShardedActorState::with_shards(2);
+                tokio::time::timeout(std::time::Duration::from_secs(10), run_connection(stream, state, ccfg)).await
+            })
+        }));
+        let end = match r {
+            Err(_) => End::Crash(crate::c15::last_panic()),
+            Ok(Err(_)) => End::Hang,
+            Ok(Ok(())) => End::Eof,
+        };
+        let w = written.lock().unwrap().clone();
+        ConnRun { written: w, end, reads: reads.load(SeqCst) }
     }
 }
 
@@ -765,6 +866,208 @@ fn check_malformed(cx: &mut Cx, cfg: &Cfg, cmds: &[Vec<Vec<u8>>], bad: &[u8], hi
     }
 }
 
+// ---------------------------------------------------------------- the write side (Model/ConnWrite.lean)
+
+fn script_text(script: &[WEv]) -> String {
+    if script.is_empty() {
+        return "-".into();
+    }
+    script.iter().map(|e| match e { WEv::Accept(k) => format!("a{}", k), WEv::Fail => "f".into() }).collect::<Vec<_>>().join(",")
+}
+
+fn wop_line(cfg: &Cfg, segs: &[Vec<u8>], script: &[WEv], stop: Option<usize>) -> String {
+    let s: Vec<String> = segs.iter().filter(|s| !s.is_empty()).map(|s| hex(s)).collect();
+    format!("W {} {} {} {} {} {} {} {}", cfg.min_pipeline, cfg.batch_threshold, header_len(), cfg.read_size, cfg.max_buffer, s.join(","), script_text(script),
+        stop.map(|n| n.to_string()).unwrap_or("-".into()))
+}
+
+/// commands whose replies the byte-level reference executor (`ConnW.refExec`) predicts exactly:
+/// GET / SET / PING / ECHO with the right arity, MULTI … EXEC / DISCARD properly nested
+fn plain_command(rng: &mut Rng, in_tx: &mut bool) -> Vec<Vec<u8>> {
+    let lower = rng.chance(1, 5);
+    let nm = |s: &str| if lower { s.to_lowercase().into_bytes() } else { s.as_bytes().to_vec() };
+    match rng.below(18) {
+        0..=5 => vec![nm("GET"), rng.pick(&KEYS).to_vec()],
+        6..=11 => vec![nm("SET"), rng.pick(&KEYS).to_vec(), value(rng)],
+        12..=13 => vec![nm("PING")],
+        14..=15 => vec![nm("ECHO"), value(rng)],
+        16 if !*in_tx => {
+            *in_tx = true;
+            vec![nm("MULTI")]
+        }
+        17 if *in_tx => {
+            *in_tx = false;
+            vec![if rng.chance(1, 4) { nm("DISCARD") } else { nm("EXEC") }]
+        }
+        _ => vec![nm("GET"), rng.pick(&KEYS).to_vec()],
+    }
+}
+
+fn no_fail(script: &[WEv]) -> bool {
+    script.iter().all(|e| matches!(e, WEv::Accept(k) if *k > 0))
+}
+
+/// a peer: (script, class)
+fn gen_script(rng: &mut Rng) -> (Vec<WEv>, &'static str) {
+    match rng.below(10) {
+        0 => (vec![], "accepts-everything"),
+        1 => ((0..400).map(|_| WEv::Accept(1)).collect(), "one-byte-writes"),
+        2 | 3 => ((0..rng.range(1, 120)).map(|_| WEv::Accept(*rng.pick(&[1usize, 1, 2, 3, 4, 5, 7, 13, 40, 1 << 20]))).collect(), "partial-writes"),
+        4 => {
+            let mut v: Vec<WEv> = (0..rng.below(12)).map(|_| WEv::Accept(*rng.pick(&[1usize, 2, 5, 9, 1 << 20]))).collect();
+            v.push(WEv::Fail);
+            (v, "fails-after-partial-writes")
+        }
+        5 => {
+            let mut v: Vec<WEv> = (0..rng.below(8)).map(|_| WEv::Accept(*rng.pick(&[1usize, 3, 6, 1 << 20]))).collect();
+            v.push(WEv::Accept(0));
+            (v, "write-zero")
+        }
+        6 => (vec![WEv::Accept(1 << 20), WEv::Fail], "first-flush-fails"),
+        7 => (vec![WEv::Accept(1 << 20), WEv::Accept(1), WEv::Accept(1 << 20), WEv::Fail], "second-flush-fails"),
+        8 => (vec![WEv::Fail], "first-write-fails"),
+        _ => {
+            // whole writes for a while, then the peer goes away
+            let mut v: Vec<WEv> = (0..2 * rng.below(4)).map(|_| WEv::Accept(1 << 20)).collect();
+            v.push(WEv::Accept(*rng.pick(&[1usize, 2, 4])));
+            v.push(WEv::Fail);
+            (v, "fails-mid-pipeline")
+        }
+    }
+}
+
+/// THE WRITE SIDE.  Correspondence: the bytes the scripted peer received and the number of reads the
+/// handler made, vs `ConnW.runW` with the byte-level reference executor.  Oracle (independent of the
+/// model): what the peer received is a PREFIX of what a peer receives that sends every command
+/// alone and accepts every write whole; ALL of it when the peer never refuses and no read fails.
+fn check_write(cx: &mut Cx, cfg: &Cfg, cmds: &[Vec<Vec<u8>>], junk: Option<&[u8]>, segs: &[Vec<u8>], script: &[WEv], sclass: &str, stop: Option<usize>, pend: usize, src: &str) {
+    let r = cx.runner.run_scripted(cfg, segs, script, stop, pend);
+    let op = wop_line(cfg, segs, script, stop);
+    let line = format!("w={} reads={}", hex(&r.written), r.reads);
+    cx.out.op(op.clone(), line.clone());
+    cx.out.count(&format!("write:{}:peer={}", src, sclass));
+    cx.out.count(&format!("write:read-error={}", if stop.is_some() { "yes" } else { "no" }));
+    cx.out.count(&format!("write:pending-polls={}", if pend > 0 { "yes" } else { "no" }));
+    if junk.is_some() {
+        cx.out.count("write:malformed-tail");
+    }
+    cx.out.case(&op, cmds.len() >= 2);
+    let replay = |what: &str, twin: &str| json!({"op": op, "commands": cmds.iter().map(|c| c.iter().map(|a| String::from_utf8_lossy(a).to_string()).collect::<Vec<_>>()).collect::<Vec<_>>(),
+        "segments": segs.iter().map(|s| hex(s)).collect::<Vec<_>>(), "peer_script": script_text(script), "peer_class": sclass, "read_fails_after": stop, "pending_every": pend,
+        "received": hex(&r.written), "reads": r.reads, "expected": what, "alone_accepting_everything": twin, "source": src});
+    match &r.end {
+        End::Crash(m) => {
+            cx.out.violation("C04:write:crash", &format!("the connection handler panicked with a peer that {}: {}", sclass, m), replay("no panic", ""));
+            return;
+        }
+        End::Hang => {
+            cx.out.violation("C04:write:hang", "the connection handler did not finish within 10 s", replay("the loop is left", ""));
+            return;
+        }
+        End::Eof => {}
+    }
+    if junk.is_some() {
+        return;
+    }
+    let mut frame_ends = Vec::new();
+    let mut acc = 0usize;
+    for c in cmds {
+        acc += frame(&c.iter().map(|a| &a[..]).collect::<Vec<_>>()).len();
+        frame_ends.push(acc);
+    }
+    if expected_overflow(&frame_ends, &reads_of(segs, cfg.read_size), cfg.max_buffer).is_some() {
+        cx.out.count("write:overflow-on-the-way");
+        return;
+    }
+    let twin_cfg = Cfg { min_pipeline: 1 << 40, batch_threshold: 1 << 20, read_size: 8192, max_buffer: 1_000_000 };
+    let t = cx.runner.run(&twin_cfg, &cmd_frames(cmds));
+    if !t.written.starts_with(&r.written) {
+        cx.out.violation("C04:write:not-a-prefix-of-the-reply-stream", "the bytes the peer received are not a prefix of the replies the commands get when sent alone: a reply is missing in the middle, duplicated, reordered or damaged",
+            replay("a prefix of the reply stream", &hex(&t.written)));
+    } else if no_fail(script) && stop.is_none() && r.written != t.written {
+        cx.out.violation("C04:write:reply-bytes-missing", "the peer accepted every byte offered (in partial writes) and no read failed, yet it did not receive the whole reply stream",
+            replay("the whole reply stream", &hex(&t.written)));
+    }
+}
+
+fn write_case(cx: &mut Cx, rng: &mut Rng) {
+    let mut cfg = config(rng);
+    if rng.chance(2, 3) {
+        cfg.max_buffer = 1_000_000;
+    }
+    let depth = *rng.pick(&[1u64, 2, 3, 5, 8, 12]);
+    let mut in_tx = false;
+    let mut cmds = Vec::new();
+    for _ in 0..depth {
+        cmds.push(plain_command(rng, &mut in_tx));
+    }
+    if in_tx {
+        cmds.push(vec![b"EXEC".to_vec()]);
+    }
+    let mut stream = Vec::new();
+    let mut bounds = Vec::new();
+    for f in cmd_frames(&cmds) {
+        stream.extend(f);
+        bounds.push(stream.len());
+    }
+    bounds.pop();
+    // sometimes a frame the RESP grammar rejects at the very end, in its own segment: `-ERR protocol error`
+    let junk: Option<Vec<u8>> = if rng.chance(1, 8) { Some(rng.pick(&[&b"?what\r\n"[..], b"*x\r\n", b"$-2\r\n", b"*1\r\n:x\r\n"]).to_vec()) } else { None };
+    let mut segs = segmentation(rng, &stream, &bounds);
+    if let Some(j) = &junk {
+        segs.push(j.clone());
+    }
+    let (script, sclass) = gen_script(rng);
+    let nreads = reads_of(&segs, cfg.read_size).len();
+    let stop = if rng.chance(1, 5) { Some(rng.below(nreads as u64 + 1) as usize) } else { None };
+    let pend = if rng.chance(1, 4) { *rng.pick(&[1usize, 2, 3, 7]) } else { 0 };
+    check_write(cx, &cfg, &cmds, junk.as_deref(), &segs, &script, sclass, stop, pend, "random");
+}
+
+/// fixed cases of the write side: every kind of peer on one pipeline, a read error at every read,
+/// a failing peer at every byte position of the reply stream
+fn write_corpus(cx: &mut Cx) {
+    let d = Cfg::default_like();
+    let cmds: Vec<Vec<Vec<u8>>> = vec![
+        vec![b"SET".to_vec(), b"k".to_vec(), b"v".to_vec()], vec![b"GET".to_vec(), b"k".to_vec()], vec![b"PING".to_vec()],
+        vec![b"MULTI".to_vec()], vec![b"ECHO".to_vec(), b"a\r\nb".to_vec()], vec![b"EXEC".to_vec()], vec![b"GET".to_vec(), b"missing".to_vec()],
+    ];
+    let frames = cmd_frames(&cmds);
+    let stream: Vec<u8> = frames.concat();
+    // the reply stream is 52 bytes: the peer takes k bytes and goes away, for every k
+    for k in 0..=56usize {
+        let script = if k == 0 { vec![WEv::Fail] } else { vec![WEv::Accept(k), WEv::Fail] };
+        check_write(cx, &d, &cmds, None, &[stream.clone()], &script, "fails-at-every-byte", None, 0, "corpus");
+    }
+    for k in [1usize, 2, 3, 5, 11] {
+        let script: Vec<WEv> = (0..80).map(|_| WEv::Accept(k)).collect();
+        check_write(cx, &d, &cmds, None, &frames, &script, "partial-writes", None, 0, "corpus");
+        check_write(cx, &d, &cmds, None, &[stream.clone()], &script, "partial-writes", None, k, "corpus");
+    }
+    for n in 0..=frames.len() {
+        check_write(cx, &d, &cmds, None, &frames, &[], "accepts-everything", Some(n), 0, "corpus");
+        check_write(cx, &d, &cmds, None, &frames, &[WEv::Accept(3), WEv::Accept(1 << 20), WEv::Accept(1)], "partial-writes", Some(n), 1, "corpus");
+    }
+    // flush failures at the first, second, third flush; Ok(0) in the middle of a reply
+    for i in 0..3usize {
+        let mut script: Vec<WEv> = (0..2 * i).map(|_| WEv::Accept(1 << 20)).collect();
+        script.push(WEv::Accept(1 << 20));
+        script.push(WEv::Fail);
+        check_write(cx, &d, &cmds, None, &frames, &script, "flush-fails", None, 0, "corpus");
+        let mut script: Vec<WEv> = (0..2 * i).map(|_| WEv::Accept(1 << 20)).collect();
+        script.push(WEv::Accept(2));
+        script.push(WEv::Accept(0));
+        check_write(cx, &d, &cmds, None, &frames, &script, "write-zero", None, 0, "corpus");
+    }
+    // the overflow guard's `let _ = write_all(..)`: error reply written in pieces / not at all
+    let small = Cfg { min_pipeline: 60, batch_threshold: 2, read_size: 16, max_buffer: 48 };
+    let big: Vec<Vec<Vec<u8>>> = vec![vec![b"PING".to_vec()], vec![b"SET".to_vec(), b"k".to_vec(), vec![b'x'; 200]], vec![b"PING".to_vec()]];
+    let bs: Vec<u8> = cmd_frames(&big).concat();
+    for script in [vec![], vec![WEv::Accept(1 << 20), WEv::Accept(1), WEv::Accept(4), WEv::Accept(5)], vec![WEv::Accept(1 << 20), WEv::Accept(1), WEv::Fail], vec![WEv::Accept(1 << 20), WEv::Accept(1), WEv::Accept(3), WEv::Accept(0)]] {
+        check_write(cx, &small, &big, None, &[bs.clone()], &script, "overflow-reply", None, 0, "corpus");
+    }
+}
+
 /// one client connection of a pooled case: segments, failing write call
 #[derive(Clone)]
 struct Conn {
@@ -961,6 +1264,7 @@ fn run_inner(a: &Args) {
     fixed_corpus(&mut cx);
     overflow_corpus(&mut cx);
     pooled_corpus(&mut cx);
+    write_corpus(&mut cx);
     // deterministic sweep: GET/SET runs of depth 1..7 around both thresholds, whole / per-command / 1-byte
     for depth in 1..=7usize {
         for mode in 0..2 {
@@ -984,6 +1288,10 @@ fn run_inner(a: &Args) {
         done += 1;
         if done % 6 == 0 {
             pooled_random(&mut cx, &mut rng);
+            continue;
+        }
+        if done % 6 == 3 {
+            write_case(&mut cx, &mut rng);
             continue;
         }
         let cfg = config(&mut rng);
